@@ -51,6 +51,12 @@ def generate(seed: int, tier: str):
         min_sep = 4 * R + 6
         margin = int(2 * R + 3)
         tb = None
+        thin = rng.random() < 0.2
+        if thin:
+            # one axis thinner than the nominal overlap depth (which is then clamped on that axis only)
+            R = 3.0
+            shape[rng.randrange(3)] = rng.randint(12, 15)
+            n = rng.randint(2, 4)
     layouts = [{"kind": "numpy", "chunks": None, "style": "numpy"}]
     for _ in range(rng.randint(2, 3)):
         kind = rng.choice(["dask", "dask", "sim"])
@@ -64,7 +70,8 @@ def generate(seed: int, tier: str):
         else:
             ch, style = W.gen_chunks(rng, shape, style=style)
         layouts.append({"kind": kind, "chunks": ch, "style": style})
-    return {"property": PROPERTY, "seed": seed, "picker": picker, "shape": shape, "scale": scale, "R": R, "n": n, "min_sep": min_sep, "margin": margin, "tb": tb,
+    thin = bool(picker != "zncc" and min(shape) < 20)
+    return {"property": PROPERTY, "seed": seed, "thin": thin, "picker": picker, "shape": shape, "scale": scale, "R": R, "n": n, "min_sep": min_sep, "margin": margin, "tb": tb,
             "dtype": rng.choice(["float32", "float32", "float64", "int16", "uint8"]) if picker != "zncc" else rng.choice(["float32", "float64"]),
             "frac": rng.random() < 0.5, "cut": rng.random() < 0.5, "data_seed": rng.randrange(1 << 30), "noise": 0.0,
             "sig_ratio": rng.choice([1.5, 1.6, 2.0]), "rot_set": rng.choice(["none", "z90", "z90"]), "min_score": 0.5,
@@ -95,9 +102,14 @@ def build_image(sc):
     faces = None
     if sc["cut"] and len(sc["layouts"]) > 1:
         faces = [np.cumsum(c)[:-1] for c in sc["layouts"][1]["chunks"]]
+    lo = np.full(3, float(margin))
+    hi = np.array(shape) - 1.0 - margin
+    for ax in range(3):
+        if hi[ax] < lo[ax]:  # thin axis: keep the particle inside, centred
+            lo[ax], hi[ax] = shape[ax] / 2 - 1.0, shape[ax] / 2
     while len(pts) < sc["n"] and tries < 5000:
         tries += 1
-        p = rg.uniform(margin, np.array(shape) - 1 - margin)
+        p = rg.uniform(lo, hi)
         if faces is not None and rg.random() < 0.6:
             ax = int(rg.integers(0, 3))
             cand = [f for f in faces[ax] if margin <= f <= shape[ax] - 1 - margin]
@@ -144,10 +156,11 @@ def make_picker(sc, tmpl):
     from scipy.spatial.transform import Rotation
 
     s = sc["scale"]
+    k = 2.0 if sc.get("thin") else 1.0  # a wider filter on thin images so that the nominal depth exceeds the thin axis
     if sc["picker"] == "log":
-        return pick.LoGPicker(sc["R"] / 2 * s), {}
+        return pick.LoGPicker(sc["R"] / 2 * k * s), {}
     if sc["picker"] == "dog":
-        return pick.DoGPicker(sc["R"] / 2 * s, sc["R"] / 2 * sc["sig_ratio"] * s), {}
+        return pick.DoGPicker(sc["R"] / 2 * k * s, sc["R"] / 2 * k * sc["sig_ratio"] * s), {}
     if sc["rot_set"] == "z90":
         # acryo's axis order is (z, y, x); a rotation about the first array axis
         rot = [Rotation.from_rotvec([np.deg2rad(a), 0, 0]) for a in (0, 90, 180, 270)]
